@@ -476,6 +476,11 @@ def localsDecls : P (List LocalsDecl) := do
   let n ← u32 E.invalidCodeSectionLocalsDeclarations
   vec localsDecl n
 
+/-- `function->code = {data, codeSize}; bufferSkipUnchecked(&reader->buffer, codeSize)` with the remaining
+    `codeSize` (after the locals declarations): the function record and the advanced buffer. -/
+def takeCode (f : Function) (locals : List LocalsDecl) (n start : Nat) (hashed : Bytes) : P Function := fun bs =>
+  .ok ({ f with locals := locals, code := bs.take n, start := start, hashed := some hashed }, bs.drop n)
+
 /-- One iteration of the code loop for function `f` (`moduleLength`, `codeStart` as in the C code). -/
 def codeEntry (moduleLength codeStart : Nat) (f : Function) : P Function := do
   let codeSize ← u32 E.invalidCodeSectionCodeSize
@@ -489,10 +494,7 @@ def codeEntry (moduleLength codeStart : Nat) (f : Function) : P Function := do
     if codeSize < consumed then
       /- codeSize -= (U32)(data - localsDeclarationsOffset) wraps; bufferSkipUnchecked leaves the buffer -/
       P.undefined .codeSizeUnderflow
-    else fun bs =>
-      .ok ({ f with locals := locals, code := bs.take (codeSize - consumed),
-                    start := moduleLength - rem' - codeStart, hashed := some (body.take codeSize) },
-           bs.drop (codeSize - consumed))
+    else takeCode f locals (codeSize - consumed) (moduleLength - rem' - codeStart) (body.take codeSize)
 
 def codeEntries (moduleLength codeStart : Nat) : List Function → P (List Function)
   | [] => pure []
@@ -577,8 +579,8 @@ def nameSectionLoop (endRem : Int) : Nat → RawModule → P RawModule
       (do
         let id ← byte E.invalidGlobalSectionMutabilityIndicator
         let size ← u32 E.invalidSectionSize
-        let m' ← if id.toNat = Reader.nameSubsectionFunctionNames then functionNamesSubsection m
-                 else do skip size; pure m
+        let m' ← (if id.toNat = Reader.nameSubsectionFunctionNames then functionNamesSubsection m
+                  else (do skip size; pure m))
         nameSectionLoop endRem fuel m') bs
 
 def nameSection (sectionSize : Nat) (m : RawModule) : P RawModule := fun bs =>
